@@ -131,7 +131,7 @@ func c09() {
 		r.Inconclusive("strace-not-available")
 		r.Finish("strace is required for fault enumeration", 10)
 	}
-	plans := r.Pick(12, 300)
+	plans := r.Pick(12, 100)
 	workers := 16
 
 	q := newWorkQueue(workers)
@@ -336,9 +336,12 @@ func c09() {
 					}
 				} else {
 					errnos = append(errnos, c09BaseErrnos...)
-					errnos = append(errnos, c09SpecialErrnos...)
+					errnos = append(errnos, c09SpecialErrnos[(i+errnoShift)%len(c09SpecialErrnos)], c09SpecialErrnos[(i+errnoShift+2)%len(c09SpecialErrnos)])
 					if isRename(fp.Name) {
-						errnos = append(errnos, c09RenameErrnos...)
+						errnos = append(errnos, "EXDEV")
+					}
+					if fp.Name == "renameat2" {
+						errnos = append(errnos, c09RenameErrnos[1:]...)
 					}
 				}
 				for _, errno := range errnos {
